@@ -703,7 +703,9 @@ class DirectMode(Contract):
 
     def requires(self, c):
         B = mterm(c.old.dres_dx)
+        A = mterm(c.old.dres_dy)
         return [("one-column-per-variable", z3.And(ncols(B) == c.old.n_variables, c.old.n_variables >= 0)), ("residual-rows", z3.And(nrows(B) == c.old.n_couplings, c.old.n_couplings >= 0)),
+                ("square-system", z3.And(nrows(A) == c.old.n_couplings, ncols(A) == c.old.n_couplings)),
                 ("functions-have-partial-jacobians", functions_known(c, c.old.dfun_dx, c.old.dfun_dy))]
 
     def axioms(self, c):
@@ -721,3 +723,94 @@ class DirectMode(Contract):
             ("closed-form", z3.ForAll([i], z3.Implies(z3.And(in_range(i, F.n), ext_q(DY, total)), z3.And(jac.has(f), jac.vals[f] == closed_form(c.old.dfun_dx.vals[f], c.old.dfun_dy.vals[f], A, B))))),
             ("one-resolution-per-variable", c.new.self.n_linear_resolutions == c.old.self.n_linear_resolutions + c.old.n_variables),
         ]
+
+
+# ---------------------------------------------------------------------------- adjoint mode
+def _adj(c):
+    class _:  # noqa: N801
+        At, B = mterm(c.old.dres_dy_t), mterm(c.old.dres_dx)
+        A = mtr(At)  # dR/dy (the adjoint mode receives its transpose)
+        F, DX, DY = c.old.functions, c.old.dfun_dx, c.old.dfun_dy
+    return _
+
+
+def adjoint_row(a, f, i):
+    """Row i of the total derivative of f as the adjoint mode computes it: one solve with (dR/dy)^T per row."""
+    return madd(mrow(a.DX.vals[f], i), mtr(mmul(mtr(a.B), msolve(a.At, mneg(mtr(mrow(a.DY.vals[f], i)))))))
+
+
+def adjoint_total(a, f):
+    return closed_form(a.DX.vals[f], a.DY.vals[f], a.A, a.B)
+
+
+def _adjoint_outer(c, k):
+    a = _adj(c)
+    jac = c.locals["jac"]
+    p = z3.Int("p!ao")
+    f = a.F.elems[p]
+    return [("jacobians-so-far", z3.ForAll([p], z3.Implies(z3.And(in_range(p, k), ext_q(jac.vals[f], adjoint_total(a, f))), z3.And(jac.has(f), jac.vals[f] == adjoint_total(a, f))),
+                                           patterns=[a.F.elems[p]])),
+            ("system-matrix-kept", mterm(c.new.self.linear_problem.lhs) == a.At)]
+
+
+def _adjoint_inner(c, i):
+    a = _adj(c)
+    jac, fun = c.locals["jac"], c.locals["fun"]
+    J = jac.vals[fun]
+    p, r = z3.Int("p!ai"), z3.Int("r!ai")
+    f = a.F.elems[p]
+    k = c.pre_locals_k if hasattr(c, "pre_locals_k") else None
+    return [("current-jacobian-shape", z3.And(jac.has(fun), nrows(J) == nrows(a.DX.vals[fun]), ncols(J) == ncols(a.DX.vals[fun]))),
+            ("rows-so-far", z3.ForAll([r], z3.Implies(in_range(r, i), mrow(J, r) == adjoint_row(a, fun, r)), patterns=[mrow(J, r)])),
+            ("other-jacobians-kept", z3.ForAll([p], z3.Implies(z3.And(in_range(p, a.F.n), f != fun, c.pre_locals["jac"].has(f)), z3.And(jac.has(f), jac.vals[f] == c.pre_locals["jac"].vals[f])),
+                                               patterns=[a.F.elems[p]])),
+            ("system-matrix-kept", mterm(c.new.self.linear_problem.lhs) == a.At)]
+
+
+@register
+class AdjointMode(Contract):
+    """Adjoint mode: one linear system with (dR/dy)^T per function component; the rows assembled that way form the same matrix
+    dF_f/dx - dF_f/dy (dR/dy)^-1 dR/dx as the direct mode."""
+
+    targets = (CS + "._adjoint_mode",)
+    prop = ("C07",)
+    c07 = "ring"
+    params = {"functions": NAMES, "dres_dx": TRing, "dres_dy_t": TRing, "dfun_dx": MATS, "dfun_dy": MATS, "linear_solver": TStr}
+    returns = JACS
+    modifies = ("self",)
+    loops = {0: LoopSpec(anchor="functions", modifies=("jac", "self.linear_problem", "self"), inv=_adjoint_outer, local_types={"jac": JACS}),
+             1: LoopSpec(anchor="range(dfunction_dy.shape[0])", modifies=("jac", "self.linear_problem", "self"), inv=_adjoint_inner)}
+
+    def requires(self, c):
+        a = _adj(c)
+        i = z3.Int("i!ar")
+        f = a.F.elems[i]
+        return [("functions-have-partial-jacobians", functions_known(c, a.DX, a.DY)),
+                ("partial-jacobians-of-a-function-have-the-same-rows", z3.ForAll([i], z3.Implies(in_range(i, a.F.n), nrows(a.DX.vals[f]) == nrows(a.DY.vals[f])), patterns=[a.F.elems[i]]))]
+
+    def axioms(self, c):
+        return ring_named()
+
+    def ensures(self, c):
+        a = _adj(c)
+        jac = c.result
+        i = z3.Int("i!am")
+        f = a.F.elems[i]
+        return [("closed-form", z3.ForAll([i], z3.Implies(z3.And(in_range(i, a.F.n), ext_q(jac.vals[f], adjoint_total(a, f))), z3.And(jac.has(f), jac.vals[f] == adjoint_total(a, f)))))]
+
+
+@register
+class ModesAgreeLemma(Contract):
+    """Corollary of the two contracts: total_derivatives hands (dR/dy)^T^T to the adjoint mode, so both modes return the same matrix,
+    the closed-form implicit-function expression; the result does not depend on the derivation mode."""
+
+    targets = ()
+    prop = ("C07",)
+    lemma = True
+
+    def lemmas(self):
+        from pyvc.plug_np_c07 import MatrixS
+
+        DX, DY, A, B = (z3.Const(n, MatrixS) for n in ("DX", "DY", "A", "B"))
+        ax = z3.And(*[f for _, f in ring_axioms()])
+        return [("adjoint-of-the-transposed-transpose-equals-direct", z3.Implies(ax, closed_form(DX, DY, mtr(mtr(A)), B) == closed_form(DX, DY, A, B)))]
